@@ -9,6 +9,9 @@
     C12_failure_atomic_<type>   op s x = (s', raised e)  →  s' = s                       (outside the known findings)
     C12_raises_exactly_<type>   the exception raised is exactly the documented one for exactly the invalid arguments
     C12_then_usable…            after a failed op the next op behaves as on the original state
+  Containers whose elements are containers: `Nest` (C12_…_nest).  The dispatcher (NULL, magic number, unimplemented class or member)
+  is stated about engine C08's model of `Type_Of` and the declaration matrix generated from the sources.  The order of checks and
+  mutations of the 64 mirrored C functions is a generated definition (`CelloGen.Fail.profile`) the `C12_source_…` theorems evaluate.
   Known findings are modelled as they are and refuted on concrete witnesses (`…_refuted`).  Defects repaired by a `fix:` commit
   keep their `…_refuted` theorem as a statement about an explicit OLD variant of the model function
   (CelloProofs/Lemmas/FailOld.lean), next to what the current model does on the same witness.
@@ -1527,8 +1530,9 @@ theorem C12_failure_atomic_object (o o' : Obj) (op : Op) (e : Exc) (hk : o.kf op
   | nest n => rw [C12_failure_atomic_nest_object n o' op e hk h]
   | junk m => rw [C12_failure_atomic_junk_object m o' op _ h]
 
-/-- **C12 (failure is atomic, whole store).** For every store of objects (arrays, lists, heap and stack tuples, tables, trees,
-    heap/stack/static strings, ranges, slices, zips, plain values), every object and every operation outside the territories
+/-- **C12 (failure is atomic, whole store).** For every store of objects (arrays, lists, heap and stack tuples, tables, trees —
+    with Int, String or instance-less elements / keys / values —, arrays and lists of containers, heap/stack/static strings, ranges,
+    slices, zips, plain values, pointers with a bad magic number), every object and every operation outside the territories
     of the known findings: if the operation raises, the observable state of **every** object of the store — contents, length,
     types, allocation class — is what it was before the call.  (Erased by `view`: `nslots` of Array/Table and the scratch Int
     of a Range; the per-type theorems above say exactly when those can differ: only `Table_Set` on a slot-less table and
